@@ -28,7 +28,25 @@
      Model/Setup.v cannot express (Refused)
    line: ttable TAB tproduct TAB flavor,root,maxdepth,keep TAB types TAB implicit
      the actions of one table text (product_of_text), in the encoding of the world field of req
-   answer: ok TAB act+act... | outside TAB kind *)
+   answer: ok TAB act+act... | outside TAB kind
+   line: reqm TAB mworld TAB flavor,root,maxdepth,keep TAB env TAB aliases TAB mdecisions TAB name TAB fwd TAB just TAB fuel
+     the setup model with SEVERAL STACKS (coq/Model/SetupMS.v); of the configuration only the native flavor, maxdepth
+     and keep are read
+     mworld     = mproduct|mproduct...   mproduct = name:version:root:flavor:dir:act+act...
+     mdecisions = version~root,!,...     (the version and the stack of the product the resolver returned)
+   answer: as req
+   line: wffm TAB mworld TAB order       answer: one 0/1 per field of mwf2_fields (coq/Model/SetupMSWf.v)
+   line: fullm TAB mworld TAB mlines TAB mtags TAB path TAB flavor,root,maxdepth,keep TAB env TAB aliases TAB name TAB version
+              TAB fwd TAB just TAB fuel TAB flavors TAB extra-global-tags
+     the composed model mrequest_full of coq/Model/SetupMSFull.v
+     mlines    = name:version:root:li+li...|...
+     mtags     = root~name~flavor~tag~version,...   the chain files, stack by stack
+     path      = root,root,...                      the stacks the command selected, in EUPS_PATH order
+   answer: ok TAB env TAB aliases TAB mdecisions-taken | fail TAB mdecisions-taken | err TAB kind
+   line: textm TAB mtworld TAB flavor,root,maxdepth,keep TAB env TAB aliases TAB mdecisions TAB name TAB fwd TAB just TAB fuel
+              TAB types TAB implicit
+     coq/Model/SetupMSText.v;  mtworld = mtproduct|...   mtproduct = name:version:root:flavor:dir:text
+   line: ttablem TAB mtproduct TAB types TAB implicit      answer: ok TAB act+act... | outside TAB kind *)
 let dec_env (s : Stdlib.String.t) =
   dec_list ';' (fun kv ->
     match Stdlib.String.index_opt kv '=' with
@@ -113,8 +131,105 @@ let text_cfg (cfg0 : config) tps : config =
       Stdlib.List.filter_map (fun (tp, fl) -> if fl = cfg0.c_flavor then None
                                               else Some ((tp.t_name, tp.t_version), fl)) tps }
 
+(* ---- several stacks *)
+let dec_mproduct (s : Stdlib.String.t) : mproduct =
+  match Stdlib.String.split_on_char ':' s with
+  | [n; v; r; fl; d; acts] -> { mp_name = dec_str n; mp_version = dec_str v; mp_root = dec_str r; mp_flavor = dec_str fl;
+                               mp_dir = dec_str d; mp_actions = Stdlib.List.map dec_act (split_sep '+' acts) }
+  | [n; v; r; fl; d] -> { mp_name = dec_str n; mp_version = dec_str v; mp_root = dec_str r; mp_flavor = dec_str fl;
+                         mp_dir = dec_str d; mp_actions = [] }
+  | _ -> failwith "bad mproduct"
+
+let dec_vref (x : Stdlib.String.t) : vref =
+  match Stdlib.String.split_on_char '~' x with
+  | [v; r] -> { vr_version = dec_str v; vr_root = dec_str r }
+  | _ -> failwith "bad vref"
+
+let dec_mdecisions (s : Stdlib.String.t) : vref option list =
+  Stdlib.List.map (fun x -> if x = "!" then None else Some (dec_vref x)) (split_sep ',' s)
+
+let enc_mdecisions (ds : vref option list) : Stdlib.String.t =
+  Stdlib.String.concat "," (Stdlib.List.map (fun d -> match d with None -> "!"
+                                                     | Some k -> enc_str k.vr_version ^ "~" ^ enc_str k.vr_root) ds)
+
+let dec_mlines (s : Stdlib.String.t) =
+  match Stdlib.String.split_on_char ':' s with
+  | [n; v; r; l] -> ((dec_str n, { vr_version = dec_str v; vr_root = dec_str r }), Stdlib.List.map dec_lineinfo (split_sep '+' l))
+  | [n; v; r] -> ((dec_str n, { vr_version = dec_str v; vr_root = dec_str r }), [])
+  | _ -> failwith "bad mlines"
+
+let dec_mtag (s : Stdlib.String.t) =
+  match Stdlib.String.split_on_char '~' s with
+  | [r; n; fl; t; v] -> (dec_str r, (((dec_str n, dec_str fl), dec_str t), dec_str v))
+  | _ -> failwith "bad mtag"
+
+let dec_mtproduct (s : Stdlib.String.t) : mtproduct =
+  match Stdlib.String.split_on_char ':' s with
+  | [n; v; r; fl; d; t] -> { mt_name = dec_str n; mt_version = dec_str v; mt_root = dec_str r; mt_flavor = dec_str fl;
+                            mt_dir = dec_str d; mt_text = dec_str t }
+  | [n; v; r; fl; d] -> { mt_name = dec_str n; mt_version = dec_str v; mt_root = dec_str r; mt_flavor = dec_str fl;
+                         mt_dir = dec_str d; mt_text = [] }
+  | _ -> failwith "bad text mproduct"
+
+let answer_mresult (r : mresult) : Stdlib.String.t =
+  match r with
+  | MDone (true, st', ds') -> "ok\t" ^ enc_env st'.s_env ^ "\t" ^ enc_env st'.s_aliases ^ "\t" ^ string_of_int (Stdlib.List.length ds')
+  | MDone (false, _, ds') -> "fail\t" ^ string_of_int (Stdlib.List.length ds')
+  | MRaise (_, _) -> "raise"
+  | MFuel -> "err\tOutOfFuel"
+  | MBad -> "err\tBadDecisions"
+
+let handle_ms (f : Stdlib.String.t array) : Stdlib.String.t =
+  match f.(0) with
+  | "reqm" ->
+    let w = Stdlib.List.map dec_mproduct (split_sep '|' f.(1)) in
+    let cfg = dec_cfg f.(2) in
+    let st = { s_env = dec_env f.(3); s_aliases = dec_env f.(4) } in
+    let ds = dec_mdecisions f.(5) in
+    let fuel = nat_of_int (int_of_string f.(9)) in
+    answer_mresult (msetup w cfg fuel st ds (dec_str f.(6)) (bool_of_field f.(7)) O (bool_of_field f.(8)))
+  | "wffm" ->
+    let w = Stdlib.List.map dec_mproduct (split_sep '|' f.(1)) in
+    let order = dec_strlist ',' (if Stdlib.Array.length f > 2 then f.(2) else "") in
+    Stdlib.String.concat "" (Stdlib.List.map field_of_bool (mwf2_fields w order))
+  | "fullm" ->
+    let fw = { mfw_products = Stdlib.List.map dec_mproduct (split_sep '|' f.(1));
+               mfw_lines = Stdlib.List.map dec_mlines (split_sep '|' f.(2));
+               mfw_tags = Stdlib.List.map dec_mtag (split_sep ',' f.(3));
+               mfw_path = dec_strlist ',' f.(4) } in
+    let cfg = dec_cfg f.(5) in
+    let st = { s_env = dec_env f.(6); s_aliases = dec_env f.(7) } in
+    let fuel = nat_of_int (int_of_string f.(12)) in
+    let flavors = dec_strlist ',' f.(13) in
+    let rc = site_config (dec_strlist ',' (if Stdlib.Array.length f > 14 then f.(14) else "")) [] in
+    (match mrequest_full_simple fw cfg rc flavors fuel st (dec_str f.(8)) (dec_optstr f.(9))
+             (bool_of_field f.(10)) (bool_of_field f.(11)) with
+     | Ok (Some st', tr) -> "ok\t" ^ enc_env st'.s_env ^ "\t" ^ enc_env st'.s_aliases ^ "\t" ^ enc_mdecisions tr
+     | Ok (None, tr) -> "fail\t" ^ enc_mdecisions tr
+     | Err k -> "err\t" ^ err_name k)
+  | "textm" ->
+    let tps = Stdlib.List.map dec_mtproduct (split_sep '|' f.(1)) in
+    let cfg = dec_cfg f.(2) in
+    let st = { s_env = dec_env f.(3); s_aliases = dec_env f.(4) } in
+    let ds = dec_mdecisions f.(5) in
+    let fuel = nat_of_int (int_of_string f.(9)) in
+    let tc = { tc_types = dec_strlist ',' (if Stdlib.Array.length f > 10 then f.(10) else "");
+               tc_implicit = dec_strlist ',' (if Stdlib.Array.length f > 11 then f.(11) else "") } in
+    (match msetup_text cfg tc tps fuel st ds (dec_str f.(6)) (bool_of_field f.(7)) O (bool_of_field f.(8)) with
+     | Err k -> "outside\t" ^ err_name k
+     | Ok r -> answer_mresult r)
+  | "ttablem" ->
+    let tp = dec_mtproduct f.(1) in
+    let tc = { tc_types = dec_strlist ',' (if Stdlib.Array.length f > 2 then f.(2) else "");
+               tc_implicit = dec_strlist ',' (if Stdlib.Array.length f > 3 then f.(3) else "") } in
+    (match mproduct_of_text tc tp with
+     | Err k -> "outside\t" ^ err_name k
+     | Ok p -> "ok\t" ^ Stdlib.String.concat "+" (Stdlib.List.map enc_act p.mp_actions))
+  | _ -> failwith "unknown op"
+
 let handle (f : Stdlib.String.t array) : Stdlib.String.t =
   match f.(0) with
+  | "reqm" | "wffm" | "fullm" | "textm" | "ttablem" -> handle_ms f
   | "ttable" ->
     let (tp, fl) = dec_tproduct f.(1) in
     let cfg = text_cfg (dec_cfg f.(2)) [(tp, fl)] in
@@ -188,6 +303,18 @@ let handle (f : Stdlib.String.t array) : Stdlib.String.t =
      | RRaise (_, _) -> "raise"
      | RFuel -> "err\tOutOfFuel"
      | RBad -> "err\tBadDecisions")
+  | "cmds" ->
+    (* line: cmds TAB env-before TAB env-after-setup TAB env-after-unsetup
+       coq/Model/SetupCmds.v: the shell that starts with env-before and sources the command lists app.setup makes of
+       the two computed environments (emitter and shell fragment of coq/Model/Shell.v)
+       answer: ok TAB env-of-the-shell TAB text1 TAB text2 | outside (cmds_in_claim is false) | err TAB kind *)
+    let e0 = dec_env f.(1) in
+    let st1 = { s_env = dec_env f.(2); s_aliases = [] } and st2 = { s_env = dec_env f.(3); s_aliases = [] } in
+    if not (cmds_in_claim e0 st1 st2) then "outside" else
+    (match shell_after e0 st1 st2, command_texts e0 st1 st2 with
+     | Ok sh, Ok texts -> "ok\t" ^ enc_env sh ^ "\t" ^ Stdlib.String.concat "\t" (Stdlib.List.map enc_str texts)
+     | Err k, _ -> "err\t" ^ err_name k
+     | _, Err k -> "err\t" ^ err_name k)
   | "wf" ->
     let w = Stdlib.List.map dec_product (split_sep '|' f.(1)) in
     let order = dec_strlist ',' (if Stdlib.Array.length f > 2 then f.(2) else "") in
